@@ -121,6 +121,17 @@ def menu(ctx: Ctx, rng: random.Random) -> list[dict]:
             m += [{"op": "iban.generate", "cc": cps(cc), "bank": cps(c08.field_chars(row, "bank_code", rng, wb)),
                    "branch": [], "acct": cps(c08.field_chars(row, "account_code", rng, max(wa - 1, 1)))},
                   {"op": "iban.parts", "t": cps(gen.valid_iban(row, rng)), "ai": False}]
+    # countries WITHOUT published positions: reading components, drawing and generating for them must not
+    # disturb each other (a helper that fills in a default positions entry would)
+    nopos = [r for r in ctx.table(env0) if not r["haspos"] and gen.row_classes(r) is not None]
+    for row in nopos[:2] + nopos[-1:]:
+        cc = gen.cc_of(row)
+        FAMILIES.append(list(range(len(m), len(m) + 5)))
+        m += [{"op": "iban.parts", "t": cps(gen.valid_iban(row, rng)), "ai": False},
+              {"op": "iban.random", "country": cps(cc), "seed": 3, "use_registry": False, "pinned": [], "vals": {}},
+              {"op": "bban.random", "country": cps(cc), "seed": 4, "use_registry": True, "pinned": [], "vals": {}},
+              {"op": "iban.new", "t": cps(gen.valid_iban(row, rng)), "vb": True},
+              {"op": "iban.generate", "cc": cps(cc), "bank": cps("1"), "branch": [], "acct": cps("2")}]
     # texts that differ only at a BBAN position no component covers (filler), and for a country without
     # positions: a memo keyed by the components would confuse a valid IBAN with its corruption
     for row in ctx.table(env0):
